@@ -26,9 +26,7 @@ vars == <<cur, score, last, ncomp>>
 
 Init == cur = InitSt /\ score = 0 /\ last = 0 /\ ncomp = 0
 
-Changes(st, k) == Trans(st, FlatAt(k), TRUE).st # st
-
-Ready(st, k) == LET t == FlatAt(k).target IN st[t].reach /\ st[t].disc
+Changes(st, k) == WouldChange(st, FlatAt(k))
 
 KindOf(k) ==
     LET o == (k - 1) % PerHost IN
@@ -38,20 +36,38 @@ TargetOf(k) == HostOrder[((k - 1) \div PerHost) + 1]
 
 AllK == 1..NActions
 
-\* priorities of the greedy run
-P1(st) == {k \in AllK : /\ KindOf(k) \in {"exploit", "privesc"} /\ TargetOf(k) \in Sens
-                        /\ st[TargetOf(k)].acc < 2 /\ Ready(st, k) /\ Changes(st, k)}
-P2(st) == {k \in AllK : KindOf(k) = "subnet_scan" /\ st[TargetOf(k)].comp /\ Changes(st, k)}
-P3(st) == {k \in AllK : /\ KindOf(k) = "exploit" /\ ~st[TargetOf(k)].comp /\ Ready(st, k)
-                        /\ Changes(st, k)}
-P4(st) == {k \in AllK : KindOf(k) \in {"exploit", "privesc"} /\ Ready(st, k) /\ Changes(st, k)}
+\* priorities of the greedy run: (1) gain access on a sensitive host, (2) discover, (3) compromise a new host,
+\* (4) anything else that changes the state
+Pri(st, k, p) ==
+    CASE p = 1 -> /\ KindOf(k) \in {"exploit", "privesc"} /\ TargetOf(k) \in Sens
+                  /\ st[TargetOf(k)].acc < 2 /\ Changes(st, k)
+      [] p = 2 -> KindOf(k) = "subnet_scan" /\ st[TargetOf(k)].comp /\ Changes(st, k)
+      [] p = 3 -> KindOf(k) = "exploit" /\ ~st[TargetOf(k)].comp /\ Changes(st, k)
+      [] OTHER -> KindOf(k) \in {"exploit", "privesc"} /\ Changes(st, k)
+
+\* first action (in flat order) of priority class p that applies, 0 if none; host by host so that the
+\* recursion depth stays at the number of hosts
+RECURSIVE FirstInHost(_, _, _, _)
+FirstInHost(st, p, hi, o) ==
+    IF o >= PerHost THEN 0
+    ELSE LET k == (hi - 1) * PerHost + o + 1 IN
+         IF Pri(st, k, p) THEN k ELSE FirstInHost(st, p, hi, o + 1)
+RECURSIVE FirstFrom(_, _, _)
+FirstFrom(st, p, hi) ==
+    IF hi > NHosts THEN 0
+    ELSE LET t == HostOrder[hi] IN
+         IF ~(st[t].reach /\ st[t].disc) THEN FirstFrom(st, p, hi + 1)
+         ELSE LET k == FirstInHost(st, p, hi, 0) IN IF k # 0 THEN k ELSE FirstFrom(st, p, hi + 1)
 
 GreedyChoice(st) ==
-    IF P1(st) # {} THEN Min(P1(st))
-    ELSE IF P2(st) # {} THEN Min(P2(st))
-    ELSE IF P3(st) # {} THEN Min(P3(st))
-    ELSE IF P4(st) # {} THEN Min(P4(st))
-    ELSE 0
+    LET k1 == FirstFrom(st, 1, 1) IN
+    IF k1 # 0 THEN k1
+    ELSE LET k2 == FirstFrom(st, 2, 1) IN
+         IF k2 # 0 THEN k2
+         ELSE LET k3 == FirstFrom(st, 3, 1) IN
+              IF k3 # 0 THEN k3 ELSE FirstFrom(st, 4, 1)
+
+Ready(st, k) == LET t == FlatAt(k).target IN st[t].reach /\ st[t].disc
 
 Do(k) ==
     LET a == FlatAt(k)
@@ -60,7 +76,7 @@ Do(k) ==
     /\ score' = score + x.value - a.cost
     /\ last' = k
     /\ ncomp' = Cardinality({h \in Hosts : x.st[h].comp})
-    /\ IF PlanMode = "greedy" THEN PrintT(<<"PLAN", k>>) ELSE TRUE
+
 
 GreedyNext ==
     /\ ~Goal(cur)
@@ -81,25 +97,5 @@ NoPlan == ~Goal(cur)
 ScoreWithinBound == Goal(cur) => score <= AdvUB
 \* checked on the firewall-free twin of the scenario
 HopsWithinMinimum == Goal(cur) => ncomp >= AdvHops
-
----------------------------------------------------------------------------
-(* The hop count the implementation is documented to compute: all-pairs    *)
-(* shortest paths, then the cheapest order of visiting the internet and    *)
-(* every sensitive subnet, summing pairwise distances (used only to        *)
-(* recognise the known finding KF_PermutationWalk).                        *)
-
-Inf == 1000
-RECURSIVE FW_(_, _)
-FW_(k, d) ==
-    IF k > NSub THEN d
-    ELSE FW_(k + 1, [i \in 1..NSub |-> [j \in 1..NSub |->
-             IF d[i][k] + d[k][j] < d[i][j] THEN d[i][k] + d[k][j] ELSE d[i][j]]])
-Dist == FW_(1, [i \in 1..NSub |-> [j \in 1..NSub |->
-                   IF i = j THEN 0 ELSE IF Topo[i][j] = 1 THEN 1 ELSE Inf]])
-ToVisit == {0} \cup {Sub(h) : h \in Sens}
-WalkLen(p) == LET RECURSIVE go(_)
-                  go(i) == IF i >= Len(p) THEN 0 ELSE Dist[p[i] + 1][p[i + 1] + 1] + go(i + 1)
-              IN go(1)
-PermWalk == Min({WalkLen(p) : p \in SetToSeqs(ToVisit)})
 
 =============================================================================
